@@ -33,6 +33,12 @@ PROPS = {
                        'stubbed': ['path elements (objects carrying only oms_id) in the synthetic layer']},
         'assumptions': COMMON_ASSUME + ['guard bands are those of the common (aligned) extent, as the allocator '
                                         'applies them; completeness is judged only for single-entry free-N requests'],
+        # second layer: the same property judged on what the whole planning() pipeline leaves in its OMS list
+        'extra': [{'engine': 'e3', 'module': 'gnpysim.e3_planning',
+                   'tiers': {'quick': {'tasks': 16, 'max_examples': 10, 'step_count': 5, 'shrink_seconds': 60,
+                                       'task_timeout': 1500},
+                             'thorough': {'tasks': 128, 'max_examples': 50, 'step_count': 8, 'shrink_seconds': 400,
+                                          'task_timeout': 7000}}}],
     },
     'C15': {
         'engine': 'e2', 'module': 'gnpysim.e2_spectrum',
